@@ -49,13 +49,22 @@ def run(oc, tier, seed, model_available, escalate):
         msg = cu.gen_message(rng, k)
         kw = {"k": k} if percall else {}
         pars = []
+        raised = None
         for algo in (1, 2, 3):
-            man = cu.manager(algo, n, k0)
-            with common.quiet():
-                pars.append(bytes(man.encode(msg, **kw)))
+            try:
+                man = cu.manager(algo, n, k0)
+                with common.quiet():
+                    pars.append(bytes(man.encode(msg, **kw)))
+            except Exception as ex:     # a codec that cannot be built or cannot encode a geometry the others handle is not interchangeable
+                raised = "codec %d raised %s: %s" % (algo, type(ex).__name__, str(ex)[:120])
+                break
             lines.append("enc %d %d %d %d %s" % (algo, n, k0, k if percall else 0, hx(msg)))
             impl.append(hx(pars[-1]))
         oc.oracle_cases += 1
+        if raised:
+            oc.violations.append({"input": {"n": n, "k_ctor": k0, "k_call": k if percall else None, "msg": msg.hex()}, "impl": {"raised": raised},
+                                  "what": "codecs 1, 2 and 3 do not all encode this geometry (1 <= k < n <= 255): %s" % raised})
+            continue
         if not (pars[0] == pars[1] == pars[2]):
             oc.violations.append({"input": {"n": n, "k_ctor": k0, "k_call": k if percall else None, "msg": msg.hex()},
                                   "impl": {"parity_1": pars[0].hex(), "parity_2": pars[1].hex(), "parity_3": pars[2].hex()},
@@ -81,7 +90,8 @@ def run(oc, tier, seed, model_available, escalate):
         tool = "header" if i % 2 == 0 else "whole"
         P0 = eu.Params(tool=tool, mbs=rng.choice([50, 128, 255]), size=rng.choice([64, 300]), hash=rng.choice(eu.HASHES))
         tree = {}
-        for nm in rng.sample(["a.bin", "sub/b.txt", "sub/deep/c", "z.dat"], rng.randint(2, 4)):
+        # (names with latin-1 letters beyond ASCII: the path is handed to the codec as text, one byte per character in every codec branch)
+        for nm in rng.sample(["a.bin", "sub/b.txt", "sub/deep/c", "z.dat", "caf\xe9.txt", "sub/r\xe9sum\xe9 \xfc.bin"], rng.randint(2, 5)):
             tree[nm] = bytes(rng.randrange(256) for _ in range(rng.choice([0, 1, 100, 700])))
         if i % 2 == 1:
             # directed: a file whose whole content equals the last (partial) block of the file walked just before it - the same bytes are
